@@ -231,17 +231,19 @@ Definition hull_fuel (o : obj) : nat :=
   match obj_rule o with Some (s0, rc) => S (Z.to_nat (rule_len s0 rc)) | None => 1%nat end.
 
 (* fuel that suffices for time_range_match / time_range_fill on an unbounded rule: candidates up to the
-   first one whose date is beyond the finite bound of the range (plus one) *)
+   first one whose date is beyond the finite bound of the range (plus one) and beyond every EXDATE *)
 Definition range_bound (r : trange) : Z :=
   match r with
   | (_, Some e) => e + 1
   | (Some s, None) => s
   | (None, None) => 0
   end.
+(* candidates removed by EXDATE cost fuel too: none lies beyond the largest EXDATE *)
+Definition ex_bound (b : Z) (ex : list Z) : Z := fold_right Z.max b ex.
 Definition match_fuel (o : obj) (r : trange) : nat :=
   match obj_rule o with
   | Some (s0, rc) =>
-      if is_infinite rc then S (S (Z.to_nat ((range_bound r - s0) / r_period (rc_rule rc) + 1)))
+      if is_infinite rc then S (S (Z.to_nat ((ex_bound (range_bound r) (rc_ex rc) - s0) / r_period (rc_rule rc) + 1)))
       else S (Z.to_nat (rule_len s0 rc))
   | None => 1%nat
   end.
@@ -285,44 +287,51 @@ Section Filters.
   Definition first_child_range (children : list elem) : trange :=
     match children with ETimeRange r :: _ => r | _ => (None, None) end.
 
-  (* comp_match(item, filter_, level); `level` is 0 or 1 here, level 2 returns True *)
-  Fixpoint comp_match (it : item) (level : nat) (name : cname) (children : list elem) {struct children} : option bool :=
-    let tag := match level with O => NCal | _ => it_comp it end in
+  (* comp_match(item, filter_, level).  The recursion depth is bounded by the code itself (level 2 returns
+     True), so the model is two non-recursive instances of one body. *)
+  Fixpoint cm_loop (eval_child : elem -> option bool) (l : list elem) : option bool :=
+    match l with
+    | [] => Some true
+    | child :: rest => obind (eval_child child) (fun b => if b then cm_loop eval_child rest else Some false)
+    end.
+
+  Definition comp_match_body (tag : cname) (unsupported : cname -> bool) (eval_child : elem -> option bool)
+             (name : cname) (children : list elem) : option bool :=
     match children with
     | [] => Some (cname_eqb name tag)                                   (* Point #1 *)
     | [EIsNotDefined] => Some (negb (cname_eqb name tag))               (* Point #2 *)
     | _ =>
         if negb (cname_eqb name tag) then Some false
-        else if match level with O => negb (cname_eqb name NCal) | _ => negb (is3 name) end then Some true
-        else
-          (fix loop (l : list elem) : option bool :=
-             match l with
-             | [] => Some true
-             | child :: rest =>
-                 obind (match child with
-                        | EPropFilter p => Some (prop_match p it)
-                        | ETimeRange _ =>
-                            match level with
-                            | O => None            (* getattr(vobject_item, "vcalendar") -> AttributeError *)
-                            | _ => time_range_match (fuel_of it (first_child_range children)) (it_obj it)
-                                     (first_child_range children)
-                            end
-                        | ECompFilter n ch =>
-                            match level with
-                            | O => comp_match it 1 n ch
-                            | _ => Some true       (* three levels are not supported: True *)
-                            end
-                        | _ => None                (* raise ValueError("Unexpected %r in comp-filter") *)
-                        end)
-                   (fun b => if b then loop rest else Some false)
-             end) children
+        else if unsupported name then Some true                         (* "Filtering %s is not supported" *)
+        else cm_loop eval_child children                                (* Point #3 and #4 *)
     end.
+
+  (* level 1: tag = item.component_name *)
+  Definition comp_match1 (it : item) (name : cname) (children : list elem) : option bool :=
+    comp_match_body (it_comp it) (fun n => negb (is3 n))
+      (fun child => match child with
+                    | EPropFilter p => Some (prop_match p it)
+                    | ETimeRange _ => time_range_match (fuel_of it (first_child_range children)) (it_obj it)
+                                        (first_child_range children)
+                    | ECompFilter _ _ => Some true     (* comp_match(level=2): three levels are not supported: True *)
+                    | _ => None                        (* raise ValueError("Unexpected %r in comp-filter") *)
+                    end) name children.
+
+  (* level 0: tag = item.name = "VCALENDAR" *)
+  Definition comp_match0 (it : item) (name : cname) (children : list elem) : option bool :=
+    comp_match_body NCal (fun n => negb (cname_eqb n NCal))
+      (fun child => match child with
+                    | EPropFilter p => Some (prop_match p it)
+                    | ETimeRange _ => None             (* getattr(vobject_item, "vcalendar") -> AttributeError *)
+                    | ECompFilter n ch => comp_match1 it n ch
+                    | _ => None
+                    end) name children.
 
   (* test_filter(collection_tag = "VCALENDAR", item, filter_); a filter element = list of children *)
   Definition test_filter (it : item) (f : list elem) : option bool :=
     match f with
     | [] => Some true
-    | [ECompFilter n ch] => comp_match it 0 n ch
+    | [ECompFilter n ch] => comp_match0 it n ch
     | _ => None                                    (* ValueError *)
     end.
 
